@@ -73,8 +73,11 @@ class P(vlib.Prop):
             "sizers, max_size 0 / tiny / around the total / (bytes) at the single-item boundary and inside the F5 "
             "region; the REAL MergeSplit is called (after a guarded run of the real split loop on a deep copy "
             "decided termination) and every returned request is read back: cached size, recomputed size, nested "
-            "shape with ids and contexts.  batcher: random histories of consume / timer flush / export result / "
-            "shutdown on the real defaultBatcher with a scripted export function.  A case is non-trivial when more "
+            "shape with ids and contexts; plus 160 end-to-end histories of real logs/traces requests through the real "
+            "exporter (queue + batcher, bytes/items sizer, min_size at or below max_size) under a conservation oracle.  "
+            "batcher: random histories of consume / timer flush / export result / "
+            "shutdown on the real defaultBatcher with a scripted export function and a request type whose MergeSplit "
+            "results are filled to max_size or leave slack below it (as byte-based splitting does).  A case is non-trivial when more "
             "than one request is returned (MergeSplit) / a request is spread over several batches or a batch holds "
             "several requests (batcher); distinct = distinct case terms.")
     trusted_base = [
